@@ -120,6 +120,10 @@ class Defs:
                 self._bind(n.target, n.value, n)
             elif isinstance(n, ast.ExceptHandler) and n.name:
                 self.defs.setdefault(n.name, []).append((n.type, "except", n))
+            elif isinstance(n, ast.Expr) and isinstance(n.value, ast.Call) and isinstance(n.value.func, ast.Attribute) \
+                    and isinstance(n.value.func.value, ast.Name) and n.value.func.attr in ("append", "extend", "add", "update", "insert", "appendleft") and n.value.args:
+                # a container filled in place derives from what is put into it (kind "fill": never inlined, only followed by roots())
+                self.defs.setdefault(n.value.func.value.id, []).append((n.value.args[-1], "fill", n))
 
     def _bind(self, target, value, stmt, kind="assign"):
         if isinstance(target, ast.Name):
